@@ -222,6 +222,26 @@ def body_factory(ctx):
                 j = int(np.argmax(d - tol))
                 raise Violation("%s: mean anomaly at the returned time is not the requested phase" % which,
                                 row=case["rows"][j], phase=ph, mean_anomaly_minus_phase_mod_2pi=float(d[j]))
+        # ---- the same object asked again after something changed: results must follow the current state
+        if case["t_ref"] is None:
+            tr2 = Time(tref_val + 17.25, format="mjd", scale="tcb")
+            with ctx.sut("get_t0 with another t_ref on the same object"):
+                t0b = s.get_t0(t_ref=tr2)
+            dt = np.atleast_1d((t0b - tr2).to_value(u.day))
+            d = np.abs(np.mod(2 * np.pi * dt / P_d - M0 + np.pi, 2 * np.pi) - np.pi)
+            if np.any(d > 1e-7 + 2 * np.pi * 2e-11 / P_d):
+                raise Violation("get_t0 called again with another reference epoch still answers for the first one",
+                                worst=float(d.max()))
+        M0_new = np.mod(M0 + 1.0, 2 * np.pi)
+        with ctx.sut("re-assigning M0 and asking again"):
+            s["M0"] = (M0_new * u.rad).to(units0["M0"])
+            t0c = s.get_t0(t_ref=tref_arg)
+        dt = np.atleast_1d((t0c - tr).to_value(u.day))
+        d = np.abs(np.mod(2 * np.pi * dt / P_d - M0_new + np.pi, 2 * np.pi) - np.pi)
+        if np.any(d > 1e-7 + 2 * np.pi * 2e-11 / P_d):
+            raise Violation("get_t0 after re-assigning M0 does not use the new values", worst=float(d.max()))
+        with ctx.sut("restoring M0"):
+            s["M0"] = (M0 * u.rad).to(units0["M0"])
         # ------------------------------------------------------------ wrap_K
         before = {nm: (s[nm].value.copy(), s[nm].unit) for nm in allnames}
         tref_c = 55000.0
